@@ -93,7 +93,7 @@ def parse_model(line, d):
     res = []
     for tok in line.strip().split("|"):
         if tok == "zero": res.append(("zero", None))
-        elif tok.startswith("err"): res.append(("err", tok))
+        elif tok.startswith("err") or tok.startswith("bad") or " " not in tok: res.append(("err", tok))       # (an error of the evaluator or of the request itself)
         else:
             kind, payload = tok.split(" ", 1); ents = payload.split(";")
             def pr(s_): a, b = s_.split("/"); return float(Fraction(int(a), int(b)))
@@ -110,9 +110,10 @@ def main(seed, ncases, driver, out):
     try:
         for c in range(ncases):
             if skip(c): continue
-            rnd = case_rnd(seed, c); fname = f"prog_{seed}_{c}"
+            rnd = case_rnd(seed, c); fname = f"prog_{seed}_{c % 7}"          # names (and module names) recur: a redefined algorithm of the same name is another algorithm
             src, names, prods = gen_program(rnd, fname)
-            path = os.path.join(work, fname + ".py"); open(path, "w").write("# ruff: noqa\n" + src)
+            os.makedirs(os.path.join(work, str(c)), exist_ok=True)          # (a file of its own per case: no stale source or byte-code caches)
+            path = os.path.join(work, str(c), fname + ".py"); open(path, "w").write("# ruff: noqa\n" + src)
             for key in ("hermitian", "antihermitian", "diagonal", "offdiagonal", "lower", ".adj", "flag_a", "flags_b", 'f(', 'g(', " @ ", '"H_0"', "start = 1", " / "):
                 if key in src: feat[key] = feat.get(key, 0) + 1
             N = rnd.randint(1, 3); sizes = [rnd.randint(1, 2) for _ in range(N)]; d = sum(sizes); off = np.cumsum([0] + sizes)
